@@ -5,7 +5,7 @@ use serde_json::{json, Value};
 
 use crate::check::{Check, Stats, Tier, Violation};
 use crate::child::{ChildSpec, SigReact};
-use crate::ctx::{Ev, Policy, RunOut};
+use crate::ctx::{Ev, Policy, RunOut, HOUR_MS};
 use crate::e1::{self, digest, expected_os_signal, Digest, E1Scn, GenCfg, Op, Step};
 use crate::rng::Rng;
 
@@ -525,7 +525,8 @@ pub fn gen_settled(rng: &mut Rng, graceful_heavy: bool) -> E1Scn {
 pub fn gen_graceful_burst(rng: &mut Rng, faults: bool, slow_death: bool) -> E1Scn {
     let mut sigs = e1::SigAlloc::new();
     let mut steps = vec![Step { gap: 0, op: Op::Start, waiters: 1, inline: rng.chance(1, 2), cancel_after: None, late_clone: None }];
-    let grace = *rng.pick(&e1::DURS[..7]);
+    // (u64::MAX = Duration::MAX, "wait for ever")
+    let grace = if rng.chance(1, 25) { u64::MAX } else { *rng.pick(&e1::DURS[..7]) };
     // (77: no OS equivalent, sent as SIGTERM; 9: ForceStop as the "graceful" signal - the process dies at once, the
     // control still holds the normal queue back until that is observed, a restart still follows)
     let sig = match rng.below(20) {
@@ -564,11 +565,11 @@ pub fn gen_graceful_burst(rng: &mut Rng, faults: bool, slow_death: bool) -> E1Sc
     }
     let mut children: Vec<ChildSpec> = (0..rng.range(1, 3)).map(|_| e1::child_class(rng.below(6), rng)).collect();
     // bias the first child so that its reaction collides with the grace period
-    if rng.chance(1, 2) {
+    if grace != u64::MAX && rng.chance(1, 2) {
         children[0] = match rng.below(4) {
             0 => ChildSpec { on_signal: SigReact::Exit(grace), ..Default::default() },
             1 => ChildSpec { on_signal: SigReact::Exit(grace.saturating_sub(1)), ..Default::default() },
-            2 => ChildSpec { on_signal: SigReact::Exit(grace + 1), ..Default::default() },
+            2 => ChildSpec { on_signal: SigReact::Exit(grace.saturating_add(1)), ..Default::default() },
             _ => ChildSpec { on_signal: SigReact::Ignore, self_exit: Some(grace / 2 + 1), ..Default::default() },
         };
     }
@@ -632,7 +633,7 @@ pub fn oracle_c06(scn: &E1Scn, d: &Digest, stats: &mut Stats) -> Vec<Violation> 
                 vs.push(Violation::new("signal-late", st.op.name(), format!("op {id} ({}) sent at t={sent} on a quiescent job but the signal went out at t={s}", st.op.name())));
             }
         }
-        let deadline = s + grace;
+        let deadline = s.saturating_add(grace);
         let ended_by_then = d.task_end.map(|te| te.0 <= deadline).unwrap_or(false);
         // (2) no force-kill inside the grace period
         for k in &c.kills {
@@ -659,10 +660,15 @@ pub fn oracle_c06(scn: &E1Scn, d: &Digest, stats: &mut Stats) -> Vec<Violation> 
         }
         // (a process that is slow to die - the slow-death fault - ends up to `lag` after the kill at expiry)
         let lag = scn.children.get(ci.min(scn.children.len().saturating_sub(1))).map(|c| c.kill_lag).unwrap_or(0);
+        if deadline.saturating_add(lag) >= d.run_end && d.run_end > 0 {
+            // the grace period outlasts the scenario ("wait for ever"): its expiry is beyond what was observed
+            stats.hit("probe:grace-period-outlasts-the-run");
+            continue;
+        }
         if !faulty && !ended_by_then && !dropped_early && !delete_now_before(scn, d, u32::MAX) {
             let late = match c.exit {
                 None => true,
-                Some((e, _)) => e > deadline + lag,
+                Some((e, _)) => e > deadline.saturating_add(lag),
             };
             // (an end exactly at the deadline is a tie: it may be the kill at expiry or an earlier SIGKILL taking effect)
             let alive_at_expiry = c.exit.map(|e| e.0 > deadline).unwrap_or(true);
@@ -842,8 +848,8 @@ fn hang_context(scn: &E1Scn, d: &Digest, id: u32) -> String {
             let (_, grace) = st.op.graceful().unwrap();
             if delivered {
                 match d.children[ci].exit {
-                    Some((e, _)) if e < s + grace => flags.push("child-exit-inside-grace"),
-                    Some((e, _)) if e == s + grace => flags.push("child-exit-at-expiry"),
+                    Some((e, _)) if e < s.saturating_add(grace) => flags.push("child-exit-inside-grace"),
+                    Some((e, _)) if e == s.saturating_add(grace) => flags.push("child-exit-at-expiry"),
                     _ => flags.push("grace-expired"),
                 }
             }
@@ -900,11 +906,29 @@ pub fn oracle_c07(scn: &E1Scn, d: &Digest, out: &RunOut, stats: &mut Stats) -> V
             stats.hit("probe:to-wait-on-immortal-child");
             continue;
         }
+        // a grace period that outlasts the watchdog ("wait for ever") legitimately holds the graceful control itself,
+        // every normal control behind it and every to_wait, for as long as the signalled process lives
+        let held_by_grace = all_ops(scn).iter().any(|(gid, _, _, g)| {
+            let Some((_, grace)) = g.op.graceful() else { return false };
+            let Some(sigs) = graceful_signal(scn, d, *gid) else { return grace >= HOUR_MS };
+            sigs.iter().any(|(s, _, ci, delivered)| {
+                let c = &d.children[*ci];
+                *delivered && *s <= *h && s.saturating_add(grace) > *h && c.reaped.map(|r| r.0 >= *h).unwrap_or(true)
+            })
+        });
+        if held_by_grace && st.op.prio() != 2 && !d.task_end.map(|t| t.2).unwrap_or(false) {
+            stats.hit("probe:held-by-a-grace-period-longer-than-the-watchdog");
+            continue;
+        }
         vs.push(Violation::new(
             "ticket-never-resolved",
             &hang_context(scn, d, *id),
             format!("ticket of op {id} ({}) sent at t={} was still unresolved 1 h (virtual) later for waiter {w}; nothing else in the system could make progress", st.op.name(), d.send.get(id).map(|s| s.0).unwrap_or(0)),
         ));
+    }
+    // (a') the job task never panics (no scenario contains a panicking closure or hook)
+    if d.task_end.map(|t| t.2).unwrap_or(false) {
+        vs.push(Violation::new("job-task-panicked", "", format!("the job task panicked at t={}", d.task_end.map(|t| t.0).unwrap_or(0))));
     }
     // (b) all clones / waiters of one ticket resolve at the same instant
     for (id, rs) in &d.resolved {
@@ -995,7 +1019,7 @@ pub fn oracle_c07(scn: &E1Scn, d: &Digest, out: &RunOut, stats: &mut Stats) -> V
                     let c = &d.children[ci];
                     if c.faults == 0 && d.spawn_fails.is_empty() {
                         let lag = scn.children.get(ci.min(scn.children.len().saturating_sub(1))).map(|c| c.kill_lag).unwrap_or(0);
-                        let bound = c.exit.map(|e| e.0).unwrap_or(u64::MAX).min(s + grace + lag);
+                        let bound = c.exit.map(|e| e.0).unwrap_or(u64::MAX).min(s.saturating_add(grace).saturating_add(lag));
                         let extra = if matches!(st.op, Op::StopSig { .. }) { 0 } else { slack };
                         if latest > bound.saturating_add(extra) {
                             vs.push(Violation::new(
